@@ -22,6 +22,7 @@ D3 == <<[k |-> "if", init |-> None, c |-> [k |-> "t", id |-> 92], a |-> <<Y([k |
 D4 == <<[k |-> "if", init |-> None, c |-> [k |-> "t", id |-> 93],
          a |-> <<YF(4, [k |-> "add", n |-> "a", d |-> 1]), Y(VarA), YF(4, [k |-> "add", n |-> "a", d |-> 1])>>, b |-> <<>>]>>
 
+RH(kind, kf, vf, body) == [k |-> "range", id |-> 0, kind |-> kind, xf |-> "var", kf |-> kf, vf |-> vf, wrap |-> "none", body |-> body]
 \* the generator functions of the schedule family
 Gens == <<
   \* counter loop with local state:  for r.T() { a++; r.E(); Yield(a) }; r.E()
@@ -30,7 +31,10 @@ Gens == <<
   Label(<<YF(4, VarA), Y(Lit0)>>),
   \* closure state + switch:  f(); Yield(a); switch r.T() { case true: Yield(lit); default: a++ }; Yield(a)
   Label(<<[k |-> "callf"], Y(VarA),
-          Switch(None, "tag", <<Case("t", <<Y(Lit0)>>), Case("d", <<IncA>>)>>), Y([k |-> "obs", id |-> 0, n |-> "a"])>>)
+          Switch(None, "tag", <<Case("t", <<Y(Lit0)>>), Case("d", <<IncA>>)>>), Y([k |-> "obs", id |-> 0, n |-> "a"])>>),
+  \* range loops backed by the runtime's iterators: empty integer range, one-entry map, string, slice
+  Label(<<RH("int0", "def", "none", <<[k |-> "effkv", id |-> 0]>>), RH("map1", "def", "def", <<[k |-> "effkv", id |-> 0], Y([k |-> "var", n |-> "v"])>>),
+          RH("string", "def", "def", <<[k |-> "effkv", id |-> 0]>>), RH("slice", "blank", "def", <<Y([k |-> "var", n |-> "v"])>>), Y(VarA)>>)
 >>
 NG == Len(Gens)
 \* each iterator gets its own input tape (by position in the tuple)
